@@ -95,6 +95,21 @@ META = {
                  "runs check against the replay."),
         "technique": "Lean 4 proof over persisted-epoch model + I/O-equality on retention functions + end-to-end rollback differential",
     },
+    "C04": {
+        "text": ("Two proved parts. (1) Snapshot algebra (Props/Snapshot.lean): every root the introducer can produce is the replay of "
+                 "a prefix of the introduced batches; one introduction changes all documents of a batch in one step; merges and "
+                 "persists change no lookup - so a reader, which captures one root, sees whole batches. (2) The observation monitor "
+                 "History.check is proved to be exactly the specification Consistent (there is a prefix vector of the writers' "
+                 "batches that explains every document, internal value and the count, covering what was acknowledged and what the "
+                 "client saw before); corollaries: whole batches, monotone reads, acknowledged batches visible. The check records "
+                 "observations through real readers and searches under concurrent writers, persister and merger on scorch and "
+                 "upsidedown, evaluates the monitor in Lean on each, and requires a long-lived reader's digest never to change."),
+        "design_ref": "DESIGN.md section 4, C04",
+        "note": ("partial: the theorems are about the snapshot algebra and the monitor; that the Go runtime delivers the modelled "
+                 "atomicity (root swap under the lock, reader capturing one root) is exercised by the concurrent runs. trusted: Lean "
+                 "kernel, Go harness, Go scheduler for interleavings."),
+        "technique": "Lean 4 proof (snapshot refinement + monitor = specification) + Lean-evaluated monitor over concurrent reader/search observations",
+    },
     "C01": {
         "text": ("The last-write-wins replay is a Lean function; theorems for every history: Document(id) is what the last operation on "
                  "id says, splitting the history into batches in any way gives the same state, empty batches change nothing, the live "
